@@ -21,12 +21,14 @@ End Reach.
 Definition path_lt (a b : node) : Prop := str_ltb (fst a) (fst b) = true.
 
 (** [l] is the minimal-version-selection solution of the set [R] of reachable project versions:
-    exactly the reachable paths, each once (the list is strictly sorted by path), each at the highest
-    version demanded by a reachable requirement *)
+    strictly sorted by path (so every path occurs once), every member is a reachable project version,
+    and every reachable project version (p, v) is covered by the member for p at a version >= v.
+    Hence: exactly the reachable paths, each once, each at the highest version demanded by a reachable
+    requirement (Props_C10.mvs_solution_highest spells this out). *)
 Definition mvs_solution (R : node -> Prop) (l : list node) : Prop :=
   StronglySorted path_lt l /\
-  forall p v, In (p, v) l <->
-              (R (p, v) /\ v <> VNone /\ forall v', R (p, v') -> vle v' v = true).
+  (forall p v, In (p, v) l -> R (p, v) /\ v <> VNone) /\
+  (forall p v, R (p, v) -> v <> VNone -> exists w, In (p, w) l /\ vle v w = true).
 
 (** the graph of a root requirement list over a universe *)
 Definition reachable_from (U : universe) (rootreqs : list node) : node -> Prop :=
